@@ -58,8 +58,10 @@ impl Cfg {
             bid_fee: fee(&v["bid_fee_info"])?,
             ask_attrs: strs(&v["ask_required_attributes"])?,
             bid_attrs: strs(&v["bid_required_attributes"])?,
-            prec: u(&v["price_precision"])?,
-            inc: u(&v["size_increment"])?,
+            // clamped so that the oracles' own arithmetic stays total even on a tree that admitted a
+            // nonsensical configuration (that admission is reported by C13 where it happens)
+            prec: u(&v["price_precision"])?.min(60),
+            inc: u(&v["size_increment"])?.max(1),
         })
     }
 }
